@@ -93,7 +93,15 @@ func (so streamOut) checkFilled(md string, trailerToo bool) (string, string) {
 	return "", ""
 }
 
-func checkStream(c streamCase, o optSet) (string, string) {
+func checkStream(c streamCase, o optSet) (clause, obs string) {
+	takePanics()
+	defer func() {
+		// building the server (NewServer, RegisterService)
+		if p := recover(); p != nil {
+			notePanic("server", p)
+			clause, obs, _ = serverPanicVerdict("building the server:")
+		}
+	}()
 	srv := httpgrpc.NewServer()
 	svc := &common.Svc{Name: "t.S", Streams: map[string]common.StreamDef{"SS": {ServerStreams: true, Fn: func(s grpc.ServerStream) error {
 		var in wrapperspb.StringValue
@@ -115,14 +123,18 @@ func checkStream(c streamCase, o optSet) (string, string) {
 		return handlerErr(c.Code, c.OKErr, c.Msg, c.Details)
 	}}}}
 	srv.RegisterService(svc.Desc(), common.Impl{})
-	rt := common.HandlerRT(srv)
+	// (the streaming client calls the transport on a goroutine of its own: handlerRT)
+	rt := handlerRT("server", srv)
 	if c.Wire {
-		ts := httptest.NewServer(srv)
+		ts := httptest.NewServer(guardHandler("server", srv))
 		defer ts.Close()
 		rt = wireRT(ts)
 	}
 	so := streamCall(rt, o)
-	obs := so.obs(o)
+	obs = so.obs(o)
+	if cl, d, bad := serverPanicVerdict(obs + ";"); bad {
+		return cl, d
+	}
 	if so.panicked != nil {
 		return "stream-panic", fmt.Sprintf("%s panic=%v", obs, so.panicked)
 	}
